@@ -183,6 +183,9 @@ impl Network {
         wallet_lock: Arc<RwLock<Wallet>>,
         config_lock: Arc<RwLock<dyn Configuration + Send + Sync>>,
     ) {
+        // the configuration lock precedes the peers lock in the lock order: read what the
+        // handshake needs before the peers lock is taken
+        let (is_lite, block_fetch_url) = Self::read_handshake_configs(&config_lock).await;
         let mut peers = self.peer_lock.write().await;
 
         let peer = peers.index_to_peers.get_mut(&peer_index);
@@ -210,10 +213,24 @@ impl Network {
             challenge,
             self.io_interface.as_ref(),
             wallet_lock.clone(),
-            config_lock,
+            is_lite,
+            block_fetch_url,
         )
         .await
         .unwrap();
+    }
+
+    async fn read_handshake_configs(
+        config_lock: &Arc<RwLock<dyn Configuration + Send + Sync>>,
+    ) -> (bool, String) {
+        let configs = config_lock.read().await;
+        let is_lite = configs.is_spv_mode();
+        let block_fetch_url = if is_lite {
+            "".to_string()
+        } else {
+            configs.get_block_fetch_url()
+        };
+        (is_lite, block_fetch_url)
     }
     pub async fn handle_handshake_response(
         &mut self,
@@ -223,6 +240,7 @@ impl Network {
         blockchain_lock: Arc<RwLock<Blockchain>>,
         configs_lock: Arc<RwLock<dyn Configuration + Send + Sync>>,
     ) {
+        let (is_lite, block_fetch_url) = Self::read_handshake_configs(&configs_lock).await;
         let mut peers = self.peer_lock.write().await;
         let public_key;
         {
@@ -249,7 +267,8 @@ impl Network {
                     response,
                     self.io_interface.as_ref(),
                     wallet_lock.clone(),
-                    configs_lock.clone(),
+                    is_lite,
+                    block_fetch_url,
                     current_time,
                 )
                 .await;
@@ -294,6 +313,9 @@ impl Network {
                 peer.peer_status
             );
         }
+
+        // the blockchain and configuration locks precede the peers lock: release it before syncing
+        drop(peers);
 
         self.io_interface
             .send_interface_event(InterfaceEvent::PeerConnected(peer_index));
